@@ -29,6 +29,8 @@ def shards(tier, seed):
     out = [{"name": f"streams-{i}", "what": "streams", "i": i, "tier": tier, "seed": seed} for i in range(n)]
     out.append({"name": "long-noise", "what": "long_noise", "tier": tier, "seed": seed})
     out.append({"name": "allcuts", "what": "allcuts", "tier": tier, "seed": seed})
+    for i in range(2 if tier == "quick" else 8):
+        out.append({"name": f"long-damaged-{i}", "what": "long_damaged", "tier": tier, "seed": seed})
     out.append({"name": "conformance-pty", "what": "conformance_pty", "tier": tier, "seed": seed})
     return out
 
@@ -356,6 +358,33 @@ def run_shard(spec, acc):
                 sim, stats, samples = run_stream(stream, cuts, 0)
                 judge(segs, stream, required, windows, damaged, cuts, sim, stats, samples, acc, f"100-byte reads, noise {n}")
         acc.sample({"kind": "long_noise"})
+        return
+    if spec["what"] == "long_damaged":
+        # one client instance, hundreds of segments with many corrupted / truncated packets: behaviour must not
+        # depend on how many bad packets the same client has already seen
+        for rep in range(2 if quick else 6):
+            segs = []
+            k = 0
+            for j in range(150 if quick else 500):
+                r = rng.random()
+                if r < 0.45:
+                    segs.append(("V", valid_packet(rng, k)))
+                    k += 1
+                elif r < 0.85:
+                    p = bytearray(valid_packet(rng, k))
+                    p[rng.randrange(10, 20)] ^= rng.randrange(1, 256)
+                    if b"\xaa\x55" in bytes(p[2:]) or p[-1] == 0xAA:
+                        continue
+                    segs.append(("C", bytes(p)))
+                elif r < 0.93:
+                    segs.append(("T", valid_packet(rng, k)[:rng.randrange(2, 20)]))
+                else:
+                    segs.append(("N:marker_free", noise(rng, rng.randint(1, 40), "marker_free")))
+            segs += [("V", valid_packet(rng, k)), ("V", valid_packet(rng, k + 1))]
+            stream, required, windows, damaged = ground_truth(segs)
+            for label, cuts in (("reads_of_100", list(range(100, len(stream), 100))), ("reads_of_7", list(range(7, len(stream), 7)))):
+                sim, stats, samples = run_stream(stream, cuts, 0)
+                judge(segs, stream, required, windows, damaged, cuts, sim, stats, samples, acc, "long_damaged/" + label)
         return
     if spec["what"] == "allcuts":
         segs = [("V", valid_packet(rng, 1)), ("N:marker_free", noise(rng, 5, "marker_free")), ("V", valid_packet(rng, 2)),
